@@ -2,6 +2,7 @@
 the model to the code for it, and which projection of the outputs the property speaks about."""
 from __future__ import annotations
 
+import copy
 import itertools
 import json
 import os
@@ -592,7 +593,10 @@ def run_C04(ctx: Ctx) -> Result:
     res.merge(streams.line_stream("cells", rows, impl.cells, "cells", project=lambda r: [c["column"] for c in r] if isinstance(r, list) else r))
     alpha = ["@", "#", " ", "a", "\t"]
     rows = ["@" + s for s in gens.strings_over(alpha, ctx.n(5, 7))] + ["  @" + s for s in gens.strings_over(alpha, 4)]
+    rows += ["@" + s for s in gens.strings_over(["@", "a", "\u00a0", "\u3000", "\x85", "\u2028", "#"], 4)]
     res.merge(streams.line_stream("tags", rows, impl.tags, "tags"))
+    # Markdown tag lines: every tag is located at its own '@' (columns of the Markdown matcher)
+    md_compare(res, [("TagLine", "en", l + "\n") for l in MD_TAG_LINES + ["".join(t) for t in gens.strings_over(["`", "@", "a", " "], ctx.n(7, 8))]])
     return res
 
 
@@ -613,6 +617,17 @@ def run_C05(ctx: Ctx) -> Result:
         res.fail("dialects", {"files": ["gherkin-languages.json", "python/gherkin/gherkin-languages.json"]},
                  "differ", "identical", "shipped language table differs from the master table: "
                  + str(first_diff(json.loads(b), json.loads(a))))
+    # the shipped table must load identically whatever the process locale
+    import subprocess
+    probe = ("import sys, json, hashlib; sys.path.insert(0, %r); import gherkin.dialect as d; "
+             "print(hashlib.sha1(json.dumps(d.DIALECTS, sort_keys=True).encode()).hexdigest())" % os.path.join(core.REPO, "python"))
+    want_hash = __import__("hashlib").sha1(json.dumps(json.loads(b), sort_keys=True).encode()).hexdigest()
+    for env_extra in ({"LC_ALL": "C", "LANG": "C", "PYTHONUTF8": "0", "PYTHONCOERCECLOCALE": "0"}, {"LC_ALL": "C.UTF-8"}):
+        pr = subprocess.run(["/venv/bin/python", "-c", probe], capture_output=True, text=True, env={**os.environ, **env_extra}, timeout=120)
+        res.note({"locale_env": env_extra}, True)
+        if pr.returncode != 0 or pr.stdout.strip() != want_hash:
+            res.fail("dialects", {"environment": env_extra}, (pr.stdout + pr.stderr)[-300:], want_hash,
+                     "the language table loaded by the package depends on the process locale (or fails to load)")
     # complete enumeration: dialect × keyword × role × layout through the real matcher vs the model
     title_roles = [("feature", "FeatureLine"), ("rule", "RuleLine"), ("background", "BackgroundLine"),
                    ("scenario", "ScenarioLine"), ("scenarioOutline", "ScenarioLine"), ("examples", "ExamplesLine")]
@@ -840,6 +855,19 @@ def extra_C11(ctx: Ctx) -> Result:
                         bad = f"pickle tag astNodeId {t['astNodeId']} does not resolve to a tag"
         if bad:
             res.fail("parse", {"source": src, "stop": False, "default_dialect": "en"}, ids, "distinct dense resolving ids", bad)
+    # default-constructed instances each own a fresh generator: ids start at 0 every time
+    doc_ = "@t\nFeature: f\n  Background:\n    Given b\n  Scenario: s\n    Given a\n      | x |\n"
+    for rep in range(3):
+        d_ = impl.Parser().parse(doc_)
+        ps_ = impl.Compiler().compile({**d_, "uri": "u"})
+        ids_ = sorted(int(x) for x in all_ids(d_, None))
+        pids_ = sorted(int(x) for p_ in ps_ for x in [p_["id"]] + [s_["id"] for s_ in p_["steps"]])
+        res.note({"default_constructed_round": rep}, True)
+        if ids_ != list(range(len(ids_))) or pids_ != list(range(len(pids_))):
+            res.fail("history", {"source": doc_, "note": f"default-constructed Parser()/Compiler(), use number {rep + 1} in this process"},
+                     {"ast_ids": ids_, "pickle_ids": pids_}, "0..N-1 for each fresh instance",
+                     "a default-constructed Parser()/Compiler() does not start from a fresh id generator")
+            break
     # streams of several sources share the counter
     res.merge(streams.events_stream(ctx.rng, ctx.n(150, 1500), project=lambda r: [
         [(e.get("pickle") or {}).get("id") for e in src] +
@@ -917,6 +945,9 @@ def run_C14(ctx: Ctx) -> Result:
     res = Result()
     docs = streams.corpus_docs() + streams.doc_mix(ctx.rng, ctx.n(2000, 20000), noisy=0.5, mutated=0.4)
     docs += ["   # language: xx\nFeature: f\n", "@a b\nFeature: f\n", "Feature: f\n  Scenario: s\n    Given a\n      | a |\n      | a | b |\n"]
+    for ws_ in ["\u00a0", "\u3000", "\u2003", "\u2028", "\x85", "\x1f", "\t", "\x0c"]:
+        docs.append(f"@a{ws_}b\nFeature: f\n")
+        docs.append(f"Feature: f\n  @ok @x{ws_}y\n  Scenario: s\n    Given a\n")
     # the same error met several times with other errors in between (look-ahead, then the main loop)
     for tail in ("  Scenario: n\n", "  Rule: r\n", "    Examples:\n      | a |\n", ""):
         for bad in ("  @bad tag\n", "  @ok @a b\n", "  @t\n  @bad tag\n  # c\n  @bad tag\n"):
@@ -1007,15 +1038,37 @@ def run_C15(ctx: Ctx) -> Result:
         matcher = impl.CountingMatcher("en")
         case = {"history": [pool[k] for k in sq], "stop": stop}
         res.note({"history": sq, "stop": stop}, True)
+        kept = None
         for pos, k in enumerate(sq):
             base = parser.ast_builder.id_generator._id_counter
             o = impl.parse(pool[k], stop, parser=parser, matcher=matcher)
+            # a result handed out earlier must not change when the same objects parse something else
+            if kept is not None and kept[0] != kept[1]:
+                res.fail("history", {**case, "position": pos}, kept[0], kept[1],
+                         "a document returned by an earlier parse changed after a later parse on the same Parser: "
+                         + str(first_diff(kept[0], kept[1])))
+                break
+            kept = (o["ok"], copy.deepcopy(o["ok"])) if "ok" in o else None
             want = fresh[(k, stop)]
             a, b = shift(o, base), shift(want, 0)
             if a != b:
                 res.fail("history", {**case, "position": pos}, a, b,
                          f"document {pos} of the history parses differently than with fresh instances: {first_diff(a, b)}")
                 break
+    # Markdown matching in the same process must not disturb later classic parses
+    from gherkin.token_matcher_markdown import GherkinInMarkdownTokenMatcher
+    for n_ in ("en", "fr"):
+        mm_ = GherkinInMarkdownTokenMatcher(n_)
+        for l_ in ("* Given x\n", "- When y\n", "+ Then z\n", "## Scenario: s\n", "  | a |\n", "`@t`\n"):
+            for k_ in ("StepLine", "ScenarioLine", "TableRow", "TagLine"):
+                getattr(mm_, "match_" + k_)(impl.Token(impl.GherkinLine(l_, 1), {"line": 1}))
+    for k, src in enumerate(pool):
+        again = impl.parse(src, False)
+        if {x: again.get(x) for x in ("ok", "errors")} != {x: fresh[(k, False)].get(x) for x in ("ok", "errors")}:
+            res.fail("history", {"source": src, "note": "after the Markdown matcher was used in this process"},
+                     again.get("ok") or again.get("errors"), fresh[(k, False)].get("ok") or fresh[(k, False)].get("errors"),
+                     "a classic parse gives a different result after GherkinInMarkdownTokenMatcher was used in the same process")
+            break
     # one matcher through two documents of different dialects that share a step keyword of different category
     D_ = impl.dialects()
     cat_ = {}
@@ -1281,6 +1334,16 @@ def run_C16(ctx: Ctx) -> Result:
     d = os.path.join(ctx.scratch.dir, "files")
     os.makedirs(d, exist_ok=True)
     from gherkin.stream.source_events import source_event
+    deep = os.path.join(d, *(["d" * 60] * 5))          # a file path longer than 255 characters
+    os.makedirs(deep, exist_ok=True)
+    lp = os.path.join(deep, "long.feature")
+    with open(lp, "w", encoding="utf8", newline="") as fh:
+        fh.write("Feature: long path\n  Scenario: s\n    Given a\n")
+    a_ = {k2: v for k2, v in impl.parse(lp, False).items() if k2 in ("ok", "errors", "crash")}
+    b_ = {k2: v for k2, v in impl.parse("Feature: long path\n  Scenario: s\n    Given a\n", False).items() if k2 in ("ok", "errors", "crash")}
+    res.note({"path_length": len(lp)}, True)
+    if a_ != b_:
+        res.fail("file", {"path_length": len(lp)}, a_, b_, "loading a document from a long file path gives a different result than the same text")
     bom = ["\ufeffFeature: bom\n  Scenario: s\n    Given a\n", "\ufeff# language: fr\nFonctionnalité: f\n", "\ufeff\nFeature: f\n"]
     for k, src in enumerate(bom + docs[: ctx.n(60, 600)]):
         p = os.path.join(d, f"f{k}.feature")
@@ -1660,14 +1723,13 @@ def run_C18(ctx: Ctx) -> Result:
     return res
 
 
-def run_C19(ctx: Ctx) -> Result:
+def md_compare(res: Result, cases, shared=None):
+    """Markdown matcher vs the model on (kind, dialect, line) cases.  ONE matcher instance per dialect
+    serves the whole enumeration (recognition of a line must not depend on what the matcher saw before)."""
     from gherkin.token_matcher_markdown import GherkinInMarkdownTokenMatcher
-    res = Result()
-    shared = {}
+    shared = {} if shared is None else shared
 
     def md_match(kind, dialect, line):
-        """ONE matcher instance per dialect serves the whole enumeration (recognition of a line must
-        not depend on what the matcher saw before)"""
         m = shared.get(dialect)
         if m is None:
             m = shared[dialect] = GherkinInMarkdownTokenMatcher(dialect)
@@ -1678,6 +1740,29 @@ def run_C19(ctx: Ctx) -> Result:
         except Exception as e:
             r = f"crash {type(e).__name__}: {e}"
         return {"res": r, "token": impl.token_json(tok)}
+    reqs = [driver.request("mdmatch", impl.KINDS.index(k), d, l) for k, d, l in cases]
+    outs = driver.batch(reqs)
+    for (k, d, l), m in zip(cases, outs):
+        case = {"kind": k, "dialect": d, "line": l}
+        i = md_match(k, d, l)
+        pi = {"res": i["res"], "keyword": i["token"]["keyword"], "text": i["token"]["text"], "column": i["token"]["column"],
+              "items": i["token"]["items"]} if i["res"] == "matched" else {"res": i["res"]}
+        pm = {"res": m["res"], "keyword": m["token"]["keyword"], "text": m["token"]["text"], "column": m["token"]["column"],
+              "items": m["token"]["items"]} if m["res"] == "matched" else {"res": m["res"]}
+        res.note(case, i["res"] == "matched")
+        res.stats["matched" if i["res"] == "matched" else "no"] += 1
+        if pi != pm:
+            res.fail("mdmatch", case, pi, pm, first_diff(pi, pm))
+
+
+MD_TAG_LINES = ["`@a`", "  `@a` `@b`", "text `@a` more `@b c` `x` `@`", "no tags", "`@a``@b`", "\t`@é` `@😀`",
+                "`@smoke-slow` `@smoke`", "`@a` `@a`", "mail bob@wip.example or see `@wip`", "  `@x` @x `@x`", "`@ab` `@b` `@a`",
+                "`x@a` `@a`", "  owner: bob@dev - tags: `@dev` `@slow`", "😀 @wip is not a tag but `@wip` is",
+                "`user@host` `@host` `@user@host` `@host`", "@a `@a` @a `@a`", "\u3000`@a`\u00a0`@b`"]
+
+
+def run_C19(ctx: Ctx) -> Result:
+    res = Result()
     D = impl.dialects()
     title_roles = [("feature", "FeatureLine"), ("rule", "RuleLine"), ("background", "BackgroundLine"),
                    ("scenario", "ScenarioLine"), ("scenarioOutline", "ScenarioLine"), ("examples", "ExamplesLine")]
@@ -1700,22 +1785,11 @@ def run_C19(ctx: Ctx) -> Result:
         for row in ("| a | b |", "|---|:-:|", "| - |", "|a|---|", "||", "| -5 | 3 |", "| --verbose | on |", "| :-) | x |",
                     "| a- | -b- |", "| -: x |", "|:--:x|", "| --- x |", "| :---: |", "| ::-- |", "| - - |"):
             cases.append(("TableRow", "en", " " * ind + row + "\n"))
-    for line in ["`@a`", "  `@a` `@b`", "text `@a` more `@b c` `x` `@`", "no tags", "`@a``@b`", "\t`@é` `@😀`",
-                 "`@smoke-slow` `@smoke`", "`@a` `@a`", "mail bob@wip.example or see `@wip`", "  `@x` @x `@x`", "`@ab` `@b` `@a`"]:
+    for indent_ in ["\u00a0\u00a0", "\u3000 ", " \u2003 ", "\t\u00a0", "\u00a0", "\u3000\u3000\u3000\u3000\u3000\u3000", "\x0b\x0c", "\x85 "]:
+        cases.append(("TableRow", "en", indent_ + "| a | b |\n"))
+    for line in MD_TAG_LINES + ["".join(t) for t in gens.strings_over(["`", "@", "a", " ", "b"], ctx.n(6, 7))]:
         cases.append(("TagLine", "en", line + "\n"))
-    reqs = [driver.request("mdmatch", impl.KINDS.index(k), d, l) for k, d, l in cases]
-    outs = driver.batch(reqs)
-    for (k, d, l), m in zip(cases, outs):
-        case = {"kind": k, "dialect": d, "line": l}
-        i = md_match(k, d, l)
-        pi = {"res": i["res"], "keyword": i["token"]["keyword"], "text": i["token"]["text"], "column": i["token"]["column"],
-              "items": i["token"]["items"]} if i["res"] == "matched" else {"res": i["res"]}
-        pm = {"res": m["res"], "keyword": m["token"]["keyword"], "text": m["token"]["text"], "column": m["token"]["column"],
-              "items": m["token"]["items"]} if m["res"] == "matched" else {"res": m["res"]}
-        res.note(case, i["res"] == "matched")
-        res.stats["matched" if i["res"] == "matched" else "no"] += 1
-        if pi != pm:
-            res.fail("mdmatch", case, pi, pm, first_diff(pi, pm))
+    md_compare(res, cases)
     return res
 
 
